@@ -3,7 +3,7 @@ import time
 import z3
 from ..driver import load_mir, REPO, model_to_json
 from ..layout import Layouts
-from ..adaptq import AdaptQuery, METHODS
+from ..adaptq import AdaptQuery, ExternalAdaptQuery, METHODS
 from ..vm import VM, Machine, Struct, Enum, Ref, Opaque, UNIT, NONE, SOME, OK, ERR, ret
 from ..alg import RealAlg, Fl
 from .. import native
@@ -23,11 +23,11 @@ def run(rep):
         if r == z3.unknown: rep.unknown('C06 solver unknown')
         return (r == z3.sat), md
     I = z3.Int; draw, nt, fw = I('draw'), I('num_tune'), I('final_window')
-    for method in METHODS:
-        for jit in (True, False):
-            t0 = time.time(); q = AdaptQuery(mir, L, method, jit); outs = q.run(); rep.paths += len(outs); rep.absorb_vm(q.vm)
+    for strat, method, jit in [(s_, m_, j_) for s_ in ('GlobalStrategy', 'ExternalTransformAdaptation') for m_ in METHODS for j_ in (True, False)]:
+        if True:
+            t0 = time.time(); q = (AdaptQuery if strat == 'GlobalStrategy' else ExternalAdaptQuery)(mir, L, method, jit); outs = q.run(); rep.paths += len(outs); rep.absorb_vm(q.vm)
             A = q.A; CUR['A'] = A; exp = A.uf['exp']; R = z3.Real
-            tag = 'C06 adapt() %s jitter=%s' % (method, 'Some' if jit else 'None'); bad = []
+            tag = 'C06 %s::adapt() %s jitter=%s' % (strat, method, 'Some' if jit else 'None'); bad = []
             reached = set()
             for (m, k, v) in outs:
                 if k == 'panic':
@@ -41,7 +41,7 @@ def run(rep):
                 # (b) tuning flag after the call
                 chk('is_tuning() after adapt(draw) differs from draw < num_tune', _b(p['tuning']) != (draw < nt), 'tuning_flag')
                 # (c) frozen transformation from the final window on
-                if any(n in ('switch', 'mm_adapt', 'step_size_init', 'update_estimators') for n in names):
+                if any(n in ('switch', 'mm_adapt', 'step_size_init', 'update_estimators', 'update_params') for n in names):
                     chk('mass-matrix strategy touched at draw >= final_step_size_window', draw >= fw, 'frozen_transformation')
                 # (d) after warm-up: estimator frozen, step = base * u
                 u = R('jitter_u') if jit else z3.RealVal(1)
@@ -52,9 +52,9 @@ def run(rep):
                     same = z3.And(p['adam_log_step'].v == R('log_step'), p['adam_m'].v == R('adam_m'), p['adam_v'].v == R('adam_v'), p['adam_t'] == I('adam_t'))
                     base_post = exp(p['adam_log_step'].v)
                 else: same = z3.BoolVal(True); base_post = R('fixed_val')
-                chk('estimator advanced or step size not (final averaged step) * jitter after warm-up', z3.And(draw >= nt, z3.Or(z3.Not(same), p['step_size'].v != base_post * u)), 'post_warmup_step')
+                if v.name == 'Ok': chk('estimator advanced or step size not (final averaged step) * jitter after warm-up', z3.And(draw >= nt, z3.Or(z3.Not(same), p['step_size'].v != base_post * u)), 'post_warmup_step')
                 # (d') the step installed by the last tuning draw (used by the first sampling draw) is the final averaged one
-                if 'step_size_init' not in names:
+                if 'step_size_init' not in names and v.name == 'Ok':      # an Err return stops the chain: no step is "installed"
                     chk('the step size installed by adapt(num_tune-1) - the one the first sampling draw uses - is not the final averaged step size', z3.And(draw == nt - 1, p['step_size'].v != base_post * u), 'last_tuning_step')
                 ok, _ = sat(m.pc + [draw >= nt]); reached.add('post') if ok else None
                 ok, _ = sat(m.pc + [draw == nt - 1]); reached.add('last') if ok else None
@@ -63,8 +63,9 @@ def run(rep):
             for key, what, md in bad: keys.setdefault(key, (what, md))
             for key, (what, md) in keys.items():
                 nat = None
-                if key == 'last_tuning_step' and method == 'DualAverage': nat = native.run('last_step', {'num_tune': 5, 'step_size_window': 0.15})
-                rep.violated('%s: %s' % (tag, key), 'adapt.%s' % key, '%s [%s, jitter %s] e.g. %s' % (what, method, jit, md), model=md, native=nat)
+                if key == 'last_tuning_step' and method == 'DualAverage' and strat == 'GlobalStrategy': nat = native.run('last_step', {'num_tune': 5, 'step_size_window': 0.15})
+                if key == 'last_tuning_step' and method == 'DualAverage' and strat != 'GlobalStrategy': nat = native.run('flow_last_step', {'num_tune': 30, 'step_size_window': 0.0})
+                rep.violated('%s: %s' % (tag, key), ('adapt.%s' if strat == 'GlobalStrategy' else 'external_adapt.%s') % key, '%s [%s, jitter %s] e.g. %s' % (what, method, jit, md), model=md, native=nat)
             if not keys: rep.holds('%s: invariant inductive, tuning flag <=> draw < num_tune, transformation untouched from the final window on, estimator frozen and step = averaged*jitter after warm-up (%d paths)' % (tag, len(outs)), time.time() - t0)
             if method == 'DualAverage' and jit: rep.sample({'query': tag, 'paths': len(outs), 'example events': [e for e in q.post(outs[0][0])['events']]})
     new_no_panic(rep, mir, L)
